@@ -412,7 +412,7 @@ structure EnvOk (e : Env) : Prop where
   grid_le : ∀ m, 0 < m → ∀ t ∈ e.grid m, t ≤ m
   integ_stops : ∀ c m, (collect (e.integ c m).steps (FSt.init.evals (e.integ c m).pre) []).isSome = true
   up_ge : ∀ m, m ≤ e.nextUp m
-  evals_le : ∀ c m, ∀ ev ∈ allEvals (e.integ c m), ev.t ≤ e.nextUp m
+  evals_le : ∀ c m, 0 < m → ∀ ev ∈ allEvals (e.integ c m), ev.t ≤ e.nextUp m
   evals_prev : ∀ c m, ∀ ev ∈ allEvals (e.integ c m), ev.tPrev < ev.t
   shrink1_lt : ∀ a q, (e.shrink1 a (.fin q)).lt (.fin q) = true
   shrink1_up : ∀ a q m, q ≤ e.nextUp m → (e.shrink1 a (.fin q)).le (.fin m) = true
